@@ -152,6 +152,9 @@ pub fn check(c: &Case) -> Verdict {
         DumpOutcome::Panic(loc, msg) => return panic_verdict(&loc, &msg),
     };
     let ref_d = md::decode(&ref_img);
+    if !t.wait_settled(&b.spec) {
+        return Verdict::Inconclusive("target did not settle between the two dumps".into());
+    }
 
     // faulted dump
     let exiters: Vec<(i32, i32)> = if c.cue_exiters && (c.failmask & FS_STOP != 0) {
@@ -304,8 +307,32 @@ pub fn check(c: &Case) -> Verdict {
             bad!("stream-differs", "system info differs from the fault-free dump");
         }
     }
-    // thread list: all threads except null-sp helpers and vanished exiters
+    // everything else the two dumps record must be equal (normal form), apart from what the failed
+    // steps own and what is volatile in this target
     let gone: Vec<i32> = exiters.iter().map(|(t, _)| *t).collect();
+    {
+        use crate::vcore::normal::*;
+        let (mut na, mut nb) = (normal_form(&ref_img, &ref_d), normal_form(&img, &d));
+        for n in [&mut na, &mut nb] {
+            n.soft_errors.clear();
+            n.thread_names.clear(); // judged separately below
+            if c.failmask & FS_CPUINFO != 0 {
+                n.sysinfo = None;
+            }
+            if !gone.is_empty() {
+                n.meminfo.clear();
+                n.raw.remove(&md::ST_LINUX_MAPS);
+            }
+            // only parked threads are bit-stable between two dumps: drop the others' volatile parts
+            let stable: Vec<u32> = all_tids.iter().filter(|(_, k)| *k == K_PARKED).map(|(t, _)| *t as u32).collect();
+            let vol: Vec<(u64, usize)> = n.threads.iter().filter(|(tid, _)| !stable.contains(tid)).map(|(_, (s, b, _))| (*s, b.len())).collect();
+            n.memory.retain(|(s, b)| !vol.contains(&(*s, b.len())));
+            n.threads.retain(|tid, _| stable.contains(tid));
+        }
+        if let Some((what, detail)) = first_difference(&na, &nb) {
+            bad!("stream-differs", "with fail points {:#x} the dump differs from the fault-free dump of the same target in {what}: {detail}", c.failmask);
+        }
+    }
     let mut want_tids: Vec<u32> = all_tids.iter().filter(|(tid, k)| *k != K_NULLSP && !gone.contains(tid)).map(|(t, _)| *t as u32).collect();
     want_tids.sort();
     let mut got_tids: Vec<u32> = d.threads.as_ref().map(|t| t.iter().map(|t| t.tid).collect()).unwrap_or_default();
